@@ -31,8 +31,6 @@ Check(r) ==
   /\ IF bad = <<>> THEN TRUE
      ELSE LET expl == {d \in NB!KnownDevs : NB!ClientExplains(r.log, {d})} IN
           \A i \in 1..Len(bad) : Report(bad[i].clause, [at |-> bad[i].at, info |-> bad[i].detail], expl)
-  \* the client model without deviations must itself satisfy the monitor whenever it explains a log
-  /\ ((NB!ClientExplains(r.log, {}) /\ bad # <<>>) => Report("spec-selfcheck", "ideal client explains a log the monitor rejects", {}))
 
 Inv == Check(Rec[l]) \/ TRUE
 =============================================================================
